@@ -58,7 +58,7 @@ FILES = {
 }
 
 OPS = [
-    (r"<=", "<"), (r">=", ">"), (r"(?<![<>=!-])<(?![<=])", "<="), (r"(?<![<>=-])>(?![>=])", ">="),
+    (r"<=", "<"), (r">=", ">"), (r" < ", " <= "), (r" > ", " >= "), (r" < ", " > "),
     (r"==", "!="), (r"!=", "=="),
     (r"\+ 1\b", "+ 0"), (r"- 1\b", "- 0"), (r"\+ 1\b", "+ 2"), (r"- 1\b", "+ 1"),
     (r" \+ ", " - "), (r" - ", " + "), (r"\+=", "-="), (r"-=", "+="),
@@ -163,7 +163,7 @@ def main():
                 rc, out = sh("timeout 600 %s/target/release/dsiverif run %s --tier quick --out %s/res.json 2>/dev/null | grep '^\\[dsiverif\\]' | head -3" % (work, p, work), cwd=H)
                 first = out.strip().split("\n")
                 m = re.search(r"violations=(\d+) inconclusive=(\d+)", out)
-                if m and int(m.group(1)) > 0:
+                if (m and int(m.group(1)) > 0) or "did-not-return" in out:
                     rec["status"] = "detected"
                     rec["props"][p] = first[1][:300] if len(first) > 1 else "violation"
                     break
@@ -176,7 +176,7 @@ def main():
             if rec["status"] in ("survived", "inconclusive"):
                 # would the repository's own suite have caught it?
                 rc, out = sh("cargo test --workspace --no-fail-fast --offline 2>&1 | grep -E 'test result|FAILED|panicked' | head -20", cwd=WT, timeout=1800)
-                rec["repo_suite"] = "fails" if ("FAILED" in out or "failed" in out and "0 failed" not in out.replace("; 0 failed", "")) else "passes"
+                rec["repo_suite"] = "fails" if ("FAILED" in out or re.search(r"; [1-9][0-9]* failed", out)) else "passes"
                 rec["repo_suite_out"] = out[-400:]
         rec["secs"] = round(time.time() - t0, 1)
         open(LOG, "a").write(json.dumps(rec) + "\n")
